@@ -311,11 +311,11 @@ def run(rep, tier, seed):
     seeds = (seed * 13 + 5, seed * 13 + 6, seed * 13 + 7)
     views = []
     if tier == 'quick':
-        po = [(2, 3), (3, 3), (4, 3), (3, 5)]
-        rt = [(2, 3), (3, 3), (3, 4)]
+        po = [(1, 1), (2, 1), (3, 1), (4, 1), (5, 1), (2, 2), (3, 2), (4, 2), (1, 3), (1, 5), (2, 3), (3, 3), (4, 3), (3, 5)]
+        rt = [(1, 1), (3, 1), (1, 4), (2, 2), (2, 3), (3, 3), (3, 4)]
         rt_bottom = [(4, 3), (3, 5)]
     else:
-        po = [(2, 3), (3, 3), (4, 3), (3, 5), (5, 3), (4, 4), (4, 5)]
+        po = [(1, 1), (2, 1), (3, 1), (4, 1), (5, 1), (2, 2), (3, 2), (4, 2), (1, 3), (1, 5), (2, 3), (3, 3), (4, 3), (3, 5), (5, 3), (4, 4), (4, 5)]
         rt = [(2, 3), (3, 3), (3, 4), (4, 3), (4, 4)]
         rt_bottom = [(3, 5), (5, 3), (4, 5)]
     for h, w in po:
@@ -365,7 +365,7 @@ def run(rep, tier, seed):
         fails.extend(fl)
     rep.part('noninterference', worlds=[list(s) for s in worlds], base_observations=nc, observations=nn,
              replacements=[d[0] for d in REPL], areas=NI_AREAS, wide_areas_for_elongated_worlds=NI_WIDE)
-    sviews = [(3, 3, (2, 1)), (3, 3, (1, 1)), (2, 3, (1, 1)), (3, 4, (2, 1))] + ([(3, 5, (2, 2)), (4, 3, (3, 1))] if tier != 'quick' else [])
+    sviews = [(3, 3, (2, 1)), (3, 3, (1, 1)), (2, 3, (1, 1)), (3, 4, (2, 1)), (3, 5, (2, 2)), (1, 3, (0, 1)), (3, 1, (2, 0))] + ([(3, 5, (2, 2)), (4, 3, (3, 1))] if tier != 'quick' else [])
     sjobs = []
     for h, w, origin in sviews:
         total = 1 << (h * w)
